@@ -19,7 +19,8 @@ EXPLANATION = (
     "follows on every path, and only then `self.focus = ...` is stored - nothing is stored into the focus before the list call, so a failing call leaves list and focus unchanged; "
     "(3) single fire: each override calls exactly one _call_modified-wrapped method (the super call) on every path, and inside the wrapper _modified() follows the wrapped call outside any "
     "try/finally (never for a failed call); (4) focus setter: the store is dominated by the int test raising TypeError and the range test raising IndexError, _focus_changed is called under "
-    "`index != self._focus` before the store, and the empty list forces _focus = 0; (5) slice-triple coherence: every range built from a slice's (start, stop, step) is bounded by its stop."
+    "`index != self._focus` before the store, and the empty list forces _focus = 0; (5) slice-triple coherence: every range built from a slice's (start, stop, step) is bounded by its stop; (6) normalisation: arithmetic that assumes an ascending, well-ordered "
+    "range (min(x, stop), stop - start, x < stop) is reachable only after negative steps and reversed bounds were normalised."
 )
 NOT_DECIDED = "The index arithmetic of _adjust_focus_on_contents_modified (which position the focus ends up at), equality with a built-in list for all operation sequences, error parity for every bad index."
 ASSUMPTIONS = ["The list of mutators is derived from the `list` type of the analysing interpreter (CPython 3.12)."]
@@ -294,8 +295,125 @@ def rule_slice_triple(ctx: Ctx) -> RuleResult:
     return rr
 
 
+def rule_slice_norm(ctx: Ctx) -> RuleResult:
+    """slice.indices() yields descending triples for negative steps and stop < start for empty
+    reversed-bounds slices.  Arithmetic that assumes an ascending, well-ordered range
+    (min(x, stop), stop - start, x < stop ...) must only be reached after both were normalised."""
+    p = ctx.p
+    rr = RuleResult("NORM", "C16.6", "order-sensitive arithmetic on a slice's (start, stop, step) is reached only after negative steps and reversed bounds were normalised", floor=4)
+    fi = p.func(f"{ML}.MonitoredFocusList._adjust_focus_on_contents_modified")
+    cfg = cfg_of(fi)
+    unpack = None
+    for n in cfg.nodes:
+        a = n.ast
+        if isinstance(a, ast.Assign) and isinstance(a.value, ast.Call) and isinstance(a.value.func, ast.Attribute) and a.value.func.attr == "indices":
+            for t in a.targets:
+                if isinstance(t, ast.Tuple) and len(t.elts) == 3 and all(isinstance(e, ast.Name) for e in t.elts):
+                    unpack = (n, [e.id for e in t.elts])
+    if unpack is None:
+        raise AnalysisError("_adjust_focus_on_contents_modified: slice triple unpacking not found")
+    un, (start, stop, step) = unpack
+
+    def names(e):
+        return {x.id for x in ast.walk(e) if isinstance(x, ast.Name)}
+
+    def order_sensitive(e):
+        out = []
+        for x in ast.walk(e):
+            if isinstance(x, ast.Call) and isinstance(x.func, ast.Name) and x.func.id in ("min", "max") and any(isinstance(a, ast.Name) and a.id in (start, stop) for a in x.args):
+                # the normalising clamp itself is not a use
+                out.append(x)
+            elif isinstance(x, ast.BinOp) and isinstance(x.op, ast.Sub) and isinstance(x.left, ast.Name) and isinstance(x.right, ast.Name) and {x.left.id, x.right.id} == {start, stop}:
+                out.append(x)
+            elif isinstance(x, ast.Compare) and any(isinstance(o, (ast.Lt, ast.LtE, ast.Gt, ast.GtE)) for o in x.ops) and any(isinstance(c, ast.Name) and c.id in (start, stop) for c in [x.left, *x.comparators]) and step not in names(x):
+                if not ({start, stop} >= {c.id for c in [x.left, *x.comparators] if isinstance(c, ast.Name)} and len(x.ops) == 1 and all(isinstance(c, ast.Name) for c in [x.left, *x.comparators])):
+                    out.append(x)
+        return out
+
+    def is_step_norm(n):
+        a = n.ast
+        if not isinstance(a, ast.Assign):
+            return False
+        for t in a.targets:
+            if isinstance(t, ast.Name) and t.id == step:
+                return True
+            if isinstance(t, ast.Tuple) and isinstance(a.value, ast.Tuple) and len(t.elts) == len(a.value.elts):
+                for te, ve in zip(t.elts, a.value.elts):
+                    if isinstance(te, ast.Name) and te.id == step and (isinstance(ve, ast.UnaryOp) and isinstance(ve.op, ast.USub) or isinstance(ve, ast.Call) and callee_name(ve) == "abs" or isinstance(ve, ast.Constant)):
+                        return True
+        return False
+
+    def is_bound_norm(n):
+        a = n.ast
+        if isinstance(a, ast.Assign) and len(a.targets) == 1 and isinstance(a.targets[0], ast.Name) and a.targets[0].id in (start, stop) and isinstance(a.value, ast.Call) and callee_name(a.value) in ("max", "min"):
+            return {start, stop} <= names(a.value)
+        return False
+
+    def walk(kind):
+        """nodes reachable from the unpacking on paths where the hazard is still possible"""
+        seen = set()
+        work = [un]
+        while work:
+            n = work.pop()
+            for t, lab in n.succ:
+                if t in seen:
+                    continue
+                if n.kind == "test" and isinstance(n.ast, ast.Compare) and len(n.ast.ops) == 1 and lab in ("T", "F"):
+                    l, op, r = n.ast.left, n.ast.ops[0], n.ast.comparators[0]
+                    if kind == "sign" and isinstance(l, ast.Name) and l.id == step and isinstance(r, ast.Constant):
+                        neg_possible = {"T": None, "F": None}
+                        k = r.value
+                        # is step < 0 still possible on edge lab?
+                        if isinstance(op, ast.Lt) and k == 0:
+                            poss = lab == "T"
+                        elif isinstance(op, (ast.Gt,)) and k == 0 or isinstance(op, ast.GtE) and k in (0, 1) or isinstance(op, ast.Eq) and isinstance(k, int) and k > 0:
+                            poss = lab == "F"
+                        else:
+                            poss = True
+                        if not poss:
+                            continue
+                    if kind == "bound" and {getattr(l, "id", None), getattr(r, "id", None)} == {start, stop}:
+                        lt = isinstance(op, (ast.Lt, ast.LtE))
+                        first = l.id
+                        # reversed bounds (stop < start) possible on this edge?
+                        if isinstance(op, (ast.Lt, ast.Gt)):
+                            rev_true = (first == stop and isinstance(op, ast.Lt)) or (first == start and isinstance(op, ast.Gt))
+                            poss = (lab == "T") == rev_true
+                        else:
+                            ok_true = (first == start and isinstance(op, ast.LtE)) or (first == stop and isinstance(op, ast.GtE))
+                            poss = (lab == "F") == ok_true
+                        if not poss:
+                            continue
+                if (kind == "sign" and is_step_norm(t)) or (kind == "bound" and is_bound_norm(t)):
+                    seen.add(t)
+                    continue  # hazard removed beyond this node
+                seen.add(t)
+                work.append(t)
+        return seen
+
+    haz_sign = walk("sign")
+    haz_bound = walk("bound")
+    from ..rules.util import node_exprs
+
+    n_uses = 0
+    for n in cfg.nodes:
+        if is_bound_norm(n) or is_step_norm(n):
+            continue
+        for r in node_exprs(n):
+            for u in order_sensitive(r):
+                n_uses += 1
+                rr.inst(f"use:{norm(u, 50)}", True, {"use": norm(u, 60), "negative_step_possible": n in haz_sign, "reversed_bounds_possible": n in haz_bound} if len(rr.samples) < 6 else None)
+                if n in haz_sign:
+                    rr.add(finding("NORM", fi, u, f"`{norm(u, 60)}` assumes an ascending range but is reachable with a negative `{step}` (slice.indices() returns descending triples for negative steps): the computed focus is wrong or out of range, and the focus setter raises after the list was already edited", construct=f"negative step reaches {norm(u, 60)}"))
+                if n in haz_bound and not (isinstance(u, ast.Call)):
+                    rr.add(finding("NORM", fi, u, f"`{norm(u, 60)}` assumes `{start} <= {stop}` but is reachable for an empty reversed-bounds slice ({stop} < {start}): the focus moves although nothing was removed", construct=f"reversed bounds reach {norm(u, 60)}"))
+    if not n_uses:
+        raise AnalysisError("_adjust_focus_on_contents_modified: no order-sensitive use of the slice triple found")
+    return rr
+
+
 def run(ctx: Ctx):
-    return [rule_cover(ctx), rule_order(ctx), rule_wrapper(ctx), rule_focus_setter(ctx), rule_slice_triple(ctx)]
+    return [rule_cover(ctx), rule_order(ctx), rule_wrapper(ctx), rule_focus_setter(ctx), rule_slice_triple(ctx), rule_slice_norm(ctx)]
 
 
 _F = "urwid/widget/monitored_list.py"
@@ -312,6 +430,9 @@ MUTANTS = [
     Mut("setter-empty-keeps-stale", _F, None, "        if not self:\n            self._focus = 0\n            return", "        if not self:\n            return", "GUARD|widget.monitored_list.MonitoredFocusList.focus"),
     Mut("setter-changed-always", _F, None, "        if index != self._focus:\n            self._focus_changed(index)", "        self._focus_changed(index)", "GUARD|widget.monitored_list.MonitoredFocusList.focus"),
     Mut("slice-range-unbounded", _F, "MonitoredFocusList._adjust_focus_on_contents_modified", "len(list(range(start, min(focus, stop), step)))", "len(range(start, focus, step))", "BOUND|"),
+    Mut("negative-step-not-normalised", _F, "MonitoredFocusList._adjust_focus_on_contents_modified", "        if step < 0:\n", "        if False:\n", "NORM|"),
+    Mut("reversed-bounds-not-clamped", _F, "MonitoredFocusList._adjust_focus_on_contents_modified", "        stop = max(start, stop)\n", "", "NORM|"),
+    Mut("twin-clamp-other-order", _F, "MonitoredFocusList._adjust_focus_on_contents_modified", "        stop = max(start, stop)\n", "        stop = max(stop, start)\n", twin=True),
     Mut("twin-setter-reordered-tests", _F, None, "if index < 0 or index >= len(self):", "if index >= len(self) or index < 0:", twin=True),
     Mut("twin-pop-local", _F, "MonitoredFocusList.pop", "        rval = super().pop(index)\n        self.focus = focus\n        return rval", "        popped = super().pop(index)\n        self.focus = focus\n        return popped", twin=True),
     Mut("twin-range-star", _F, "MonitoredFocusList._adjust_focus_on_contents_modified", "len(list(range(start, min(focus, stop), step)))", "len(range(start, min(stop, focus), step))", twin=True),
